@@ -942,6 +942,10 @@ def _pyint(interp, args, kwargs, node):
             return Const(int(v.value))
         except Exception:
             pass
+    base = args[1] if len(args) > 1 else kwargs.get("base")
+    if base is not None and base == Const(2) and isinstance(v, ElemV):
+        # the number a bit string denotes: its bit k (from the least significant end) is the character at position len-1-k
+        return Sym(("bits-of", desc(v)), "int")
     lv = interp.as_lin(v)
     if lv is not None:
         return LinV(lv.lin, "py")
